@@ -422,13 +422,17 @@ PROPS = {
     },
     "C14": {
         "required_theorems": ["c14_parse_serialize", "c14_reassemble", "c14_segmentation_independent", "c14_file_roundtrip",
-                              "c14_au_roundtrip", "c14_sigmf_order", "c14_sigmf_lookup"],
+                              "c14_au_roundtrip", "c14_au_block_any_chunking", "c14_au_stream_roundtrip", "c14_sigmf_order", "c14_sigmf_lookup"],
         "runs": [
             {"sub": "bytes", "quick": ["--seed", "{seed}", "--cases", 20],
              "thorough": ["--seed", "{seed}", "--cases", 1500], "timeout": 40000},
             # AU byte streams (valid and mutated headers) fed to the real decoder in 1..40-byte pieces vs the Lean decoder
             {"sub": "crash", "quick": ["--seed", "{seed}", "--cases", 500, "--what", "au"],
              "thorough": ["--seed", "{seed}", "--cases", 30000, "--what", "au"], "timeout": 20000},
+            # AuDecode as a block, call by call against the Lean block model (valid headers with any data offset and
+            # annotation, one field wrong, cut short; PCM bodies of even and odd length up to three stream sizes)
+            {"sub": "blocks", "quick": ["--seed", "{seed}", "--cases", 300, "--set", "modelled", "--block", "audec"],
+             "thorough": ["--seed", "{seed}", "--cases", 20000, "--set", "modelled", "--block", "audec"], "timeout": 20000},
         ],
         "rule": "serialize/parse of u8,u32,i32,f32,complex on boundary and random bit patterns (NaN payloads, infinities, "
                 "sign bits) and reassembly of random byte strings under random segmentations (0..9-byte chunks) compared with "
@@ -444,7 +448,7 @@ PROPS = {
         "assumptions": [],
     },
     "C15": {
-        "required_theorems": ["c15_au_total", "c15_hdlc_total", "c15_hdlc_guard", "c15_lfsr_total", "c15_sync_no_panic",
+        "required_theorems": ["c15_au_total", "c15_au_block_no_panic", "c15_hdlc_total", "c15_hdlc_guard", "c15_lfsr_total", "c15_sync_no_panic",
                               "c15_hand_no_panic"],
         "runs": [
             {"sub": "crash", "quick": ["--seed", "{seed}", "--cases", 400, "--burst-len", 5, "--probes", 1],
@@ -723,7 +727,9 @@ MANIFEST_TEXT = {
                 "little-endian digits, not enumeration); for EVERY segmentation of a byte stream into read() results the "
                 "reassembly buffer emits exactly the whole samples of the concatenation, in order, holding back fewer than one "
                 "sample (induction over the chunk list), hence segmentation independence and the file round trip; decoding the AU "
-                "encoder's output yields exactly the quantised samples (header fully consumed); the SigMF member lookup is "
+                "encoder's output yields exactly the quantised samples (header fully consumed), and the AuDecode BLOCK (its "
+                "four-state machine over read windows) under EVERY segmentation fails only if the one-shot decoder rejects "
+                "the whole stream and otherwise has emitted a prefix of the one-shot result; the SigMF member lookup is "
                 "invariant under permutation of the archive members and ignores unrelated members, duplicates/absence are "
                 "errors. Tied to the code by model comparison and by real pipes, sockets, files and tar archives.",
         "design_ref": "DESIGN.md section 2, C14",
